@@ -40,11 +40,13 @@ def render(ops, cfg, data, with_probe=True):
     s = ["mark __case__"] + list(decmatrix.audio_defs()) + ["init " + decmatrix.hx(json.dumps(cfg))]
     nw = 0
     rc = 1
+    freed = False
     for op, arg, cls in ops:
         s.append("mark %s" % cls)
-        if op == "free":            # the last reference goes, whatever the state (mid-utterance too): nothing follows
-            s.append("free")
-            return s
+        if op == "free":            # the last reference goes, whatever the state (mid-utterance too); only a lattice
+            s.append("free")        # the caller kept can be used afterwards
+            freed = True
+            continue
         if op == "start":
             s.append("start")
         elif op == "end":
@@ -65,20 +67,22 @@ def render(ops, cfg, data, with_probe=True):
         elif op in ("retain", "release"):
             rc += 1 if op == "retain" else -1
             s.append("call " + op)
-        elif op == "reinit":
-            s.append("call reinit")
+        elif op in ("reinit", "latkeep", "latuse", "latdrop"):
+            s.append("call " + op)
         else:
             x = arg if arg else "0"
             y = "1" if (op, arg) in (("nbestiter", "1"), ("lattice", "1")) else "0"
             s.append("call %s %s %s" % (op, x, y))
     s.append("mark none")
+    if freed:
+        return s + ["call latdrop"]
     if rc == 2:
         s.append("call release")
     if with_probe:
         # if an utterance is still open, close it; then the probe
         s += ["mark none", "end", "mark none", "jsgf " + decmatrix.hx(JSGF_OK), "mark none", "cmn " + decmatrix.hx(CMN), "mark none", "start",
               "mark none", "feed head 0 -1 i16 0 0", "mark none", "end", "result probe", "mark none", "call segiter 0", "free"]
-    return s
+    return s + ["mark none", "call latdrop"]
 
 
 def model(ctx):
